@@ -1014,7 +1014,7 @@ func runEngineS(p *Prog, o *obls) {
 			}
 			has := false
 			instrsOf(f, func(in ssa.Instruction) {
-				if st, ok := in.(*ssa.Store); ok && throughStatsStruct(st.Addr, ss.pkgPath) {
+				if st, ok := in.(*ssa.Store); ok && throughStatsStruct(st.Addr, ss.pkgPath) && !freshlyBuilt(p, st.Addr, f) {
 					has = true
 				}
 			})
@@ -1039,6 +1039,9 @@ func runEngineS(p *Prog, o *obls) {
 				st, ok := in.(*ssa.Store)
 				if !ok || !throughStatsStruct(st.Addr, ss.pkgPath) {
 					return
+				}
+				if freshlyBuilt(p, st.Addr, fn) {
+					return // initialising a state object this function has just allocated records no traffic
 				}
 				n++
 				ssrcGuardedAt := func(at ssa.Instruction) bool {
@@ -1166,6 +1169,21 @@ func throughExportedStats(addr ssa.Value, pkgRel string) bool {
 		addr = fa.X
 	}
 	return false
+}
+
+// freshlyBuilt: the address lies in an object allocated by fn itself (a composite literal or new(T)) that no whole value
+// was copied into — the fields are being given their initial values.
+func freshlyBuilt(p *Prog, addr ssa.Value, fn *ssa.Function) bool {
+	al, ok := cellAddr(addrRoot(addr)).(*ssa.Alloc)
+	if !ok || al.Parent() != fn {
+		return false
+	}
+	for _, st := range p.storesInto(al) {
+		if st.Addr == ssa.Value(al) {
+			return false // a copy of existing state (a by-value parameter, *old): not fresh
+		}
+	}
+	return true
 }
 
 // statsExempt: per-stream state that is deliberately recorded without an SSRC test.
